@@ -16,7 +16,9 @@ RULE = (
     "compared with a reference (count, seqid, coordinates, featuretype, strand, merged attributes), each interfeature's bin must equal "
     "bins(); inputs unchanged; on sampled executions the database is unchanged. Part 'empty': list, tuple, exhausted generator and a "
     "query without hits x 4 settings yield nothing and do not raise. Part 'unstranded' (4 executions): a 3-exon transcript with strand "
-    "'.' or '?' x both selections: usual intron and site positions, no five-/three-prime label. Part 'introns' (shards = blocks of exon "
+    "'.' or '?' x both selections, in a file that also lists a '+' transcript before it, an ncRNA with exons and CDS children: usual "
+    "intron and site positions, no five-/three-prime label on the unstranded ones, the '+' transcript labelled as usual, the ncRNA a "
+    "transcript for the gene selection only, exon_featuretype='CDS' giving the CDS gaps. Part 'introns' (shards = blocks of exon "
     "sets): first transcript = every set of 1..3 exons with distinct starts over positions 1..6 (quick) / 1..8 (thorough; also 4 exons "
     "over 1..6), 931 / 6742 sets; second transcript = 3 representative sets; x strand x exon line order x always_return_list; a third "
     "transcript has only a CDS; the first has a miRNA child with an exon of its own (not an exon of the transcript). create_introns "
@@ -306,22 +308,39 @@ def body_empty(ch, ctx):
 
 def body_unstranded(ch, ctx):
     """A transcript without strand: the gaps and the two-base sites are where they are for any transcript; with no strand to go
-    by, a site cannot be labelled five- or three-prime 'according to the transcript strand'."""
+    by, a site cannot be labelled five- or three-prime 'according to the transcript strand'.  The file also holds a stranded
+    transcript listed BEFORE it (labels are per transcript), an ncRNA with exons (a transcript for the gene selection, none for
+    parent_featuretype='mRNA') and CDS children (the exons when exon_featuretype='CDS' is asked)."""
     strand = ch.choose("strand", (".", "?"))
     sel, kw = ch.choose("selection", (("grandparent", {}), ("parent", dict(grandparent_featuretype=None, parent_featuretype="mRNA"))))
-    lines = ["c1\ts\tgene\t1\t40\t.\t%s\t.\tID=g1" % strand, "c1\ts\tmRNA\t1\t40\t.\t%s\t.\tID=t1;Parent=g1" % strand]
+    lines = ["c1\ts\tgene\t101\t140\t.\t+\t.\tID=g0", "c1\ts\tmRNA\t101\t140\t.\t+\t.\tID=t0;Parent=g0"]
+    lines += ["c1\ts\texon\t%d\t%d\t.\t+\t.\tID=x%d;Parent=t0" % (a, b, a) for a, b in ((101, 105), (110, 140))]
+    lines += ["c1\ts\tgene\t1\t70\t.\t%s\t.\tID=g1" % strand, "c1\ts\tmRNA\t1\t40\t.\t%s\t.\tID=t1;Parent=g1" % strand]
     lines += ["c1\ts\texon\t%d\t%d\t.\t%s\t.\tID=e%d;Parent=t1" % (a, b, strand, a) for a, b in ((1, 5), (10, 20), (31, 40))]
+    lines += ["c1\ts\tCDS\t%d\t%d\t.\t%s\t0\tID=c%d;Parent=t1" % (a, b, strand, a) for a, b in ((2, 4), (12, 18))]
+    lines += ["c1\ts\tncRNA\t50\t70\t.\t%s\t.\tID=n1;Parent=g1" % strand]
+    lines += ["c1\ts\texon\t%d\t%d\t.\t%s\t.\tID=ne%d;Parent=n1" % (a, b, strand, a) for a, b in ((50, 55), (60, 70))]
     db = gffutils.create_db(dbutil.write_text(ctx.fresh_dir(), "u.gff", "\n".join(lines) + "\n"), ":memory:", verbose=False)
     ctx.sample(lambda: dict(file=lines, selection=sel))
     ctx.nontrivial()
     ctx.outcome(("unstranded", strand, sel))
     sig = dict(strand=strand, selection=sel, unstranded=True)
+    nc = [(56, 59, strand)] if sel == "grandparent" else []          # the ncRNA is a child of the gene, not an mRNA
     introns = sorted((f.start, f.end, f.strand) for f in db.create_introns(**kw))
-    ctx.check(introns == [(6, 9, strand), (21, 30, strand)], "introns-differ", sig, file=lines, got=introns)
+    ctx.check(introns == sorted([(6, 9, strand), (21, 30, strand), (106, 109, "+")] + nc), "introns-differ", sig, file=lines, got=introns)
     sites = sorted((f.start, f.end, f.featuretype) for f in db.create_splice_sites(**kw))
-    ctx.check([x[:2] for x in sites] == [(6, 7), (8, 9), (21, 22), (29, 30)], "splice-sites-differ", sig, file=lines, got=sites)
-    oriented = [x for x in sites if x[2] in ("five_prime_cis_splice_site", "three_prime_cis_splice_site")]
+    want = sorted([(6, 7), (8, 9), (21, 22), (29, 30), (106, 107), (108, 109)] + [(56, 57), (58, 59)] * len(nc))
+    ctx.check([x[:2] for x in sites] == want, "splice-sites-differ", sig, file=lines, got=sites)
+    oriented = [x for x in sites if x[0] < 100 and x[2] in ("five_prime_cis_splice_site", "three_prime_cis_splice_site")]
     ctx.check(not oriented, "unstranded-transcript-got-strand-specific-site-labels", sig, file=lines, got=sites)
+    stranded = sorted(x for x in sites if x[0] > 100)
+    ctx.check(stranded == [(106, 107, "five_prime_cis_splice_site"), (108, 109, "three_prime_cis_splice_site")],
+              "splice-sites-differ", dict(sig, stranded_transcript=True), file=lines, got=stranded)
+    # the CDS as 'exons': only t1 has any
+    introns = sorted((f.start, f.end) for f in db.create_introns(exon_featuretype="CDS", **kw))
+    ctx.check(introns == [(5, 11)], "introns-differ", dict(sig, exon_featuretype="CDS"), file=lines, got=introns)
+    sites = sorted((f.start, f.end) for f in db.create_splice_sites(exon_featuretype="CDS", **kw))
+    ctx.check(sites == [(5, 6), (10, 11)], "splice-sites-differ", dict(sig, exon_featuretype="CDS"), file=lines, got=sites)
 
 
 def body(ch, ctx):
